@@ -124,7 +124,11 @@ func newCA(cn string) (*ecdsa.PrivateKey, *x509.Certificate, []byte) {
 
 func (p *pki) issue(pub crypto.PublicKey, issuer *x509.Certificate, issuerKey crypto.Signer, nb, na time.Time) (*x509.Certificate, []byte) {
 	p.serialCtr++
-	t := &x509.Certificate{SerialNumber: big.NewInt(1000 + p.serialCtr), Subject: pkix.Name{CommonName: "Yubico PIV Attestation"}, NotBefore: nb, NotAfter: na, IsCA: true, BasicConstraintsValid: true}
+	return p.issueSerial(pub, issuer, issuerKey, nb, na, big.NewInt(1000+p.serialCtr))
+}
+
+func (p *pki) issueSerial(pub crypto.PublicKey, issuer *x509.Certificate, issuerKey crypto.Signer, nb, na time.Time, serial *big.Int) (*x509.Certificate, []byte) {
+	t := &x509.Certificate{SerialNumber: serial, Subject: pkix.Name{CommonName: "Yubico PIV Attestation"}, NotBefore: nb, NotAfter: na, IsCA: true, BasicConstraintsValid: true}
 	if issuer == nil {
 		issuer = t
 	}
@@ -227,6 +231,8 @@ func main() {
 		p := &pki{}
 		p.rootKey, p.root, p.rootDER = newCA("verif PIV root")
 		p.otherKey, p.other, _ = newCA("verif other CA")
+		// a CA with the SAME subject name as the root but another key (not in the pool)
+		lookKey, look, _ := newCA("verif PIV root")
 		p.pool = x509.NewCertPool()
 		p.pool.AddCert(p.root)
 		p.attestor = yubiattest.NewAttestorWithCAPool(p.pool)
@@ -425,6 +431,10 @@ func main() {
 						{"chain-root-issued", func() *x509.Certificate { return d.f9 }, "accept"},
 						{"chain-other-ca", func() *x509.Certificate {
 							c, _ := p.issue(&d.priv.PublicKey, p.other, p.otherKey, now.Add(-48*time.Hour), now.Add(4800*time.Hour))
+							return c
+						}, "reject"},
+						{"chain-lookalike-ca-same-issuer-and-serial", func() *x509.Certificate {
+							c, _ := p.issueSerial(&d.priv.PublicKey, look, lookKey, now.Add(-48*time.Hour), now.Add(4800*time.Hour), d.f9.SerialNumber)
 							return c
 						}, "reject"},
 						{"chain-self-signed", func() *x509.Certificate {
